@@ -227,6 +227,10 @@ def gen_cscd(rng, spc):
     assert len(body) <= 20
     ident = {"code_set": rng.choice([1, 2, 3]), "association": rng.choice([0, 1, 2]), "designator_type": dtype,
              "designator_length": len(body), "designator": dv}
+    if rng.random() < 0.3:
+        # the dictionary of a designation descriptor decoded from the Device Identification VPD page, handed on as it is: it also
+        # has PIV and PROTOCOL IDENTIFIER, which the identification descriptor has no place for
+        ident.update({"piv": rng.choice([0, 1, 1]), "protocol_identifier": rng.choice([0, 6, 5, 0xF])})
     # the library also accepts the (unique) description strings of its device type table
     DESCR = {0x00: "Direct access block device (e.g., magnetic disk)", 0x01: "Sequential access device (e.g., magnetic tape)",
              0x03: "Processor device", 0x05: "CD/DVD device", 0x0E: "Simplified direct access device (e.g., magnetic disk)",
@@ -332,6 +336,10 @@ def parse_xcopy(b, spc):
             idn["designator_bytes"] = b[off + 8 : off + 8 + idn["designator_length"]]
             if any(b[off + 8 + idn["designator_length"] : off + 28]):
                 raise RefParseError("xcopy.designator_padding", "bytes after the designator not zero")
+            if b[off + 4] & 0xF0 or b[off + 5] & 0xC0 or b[off + 6]:
+                # (SPC-4 6.3.6.5: the identification descriptor has CODE SET, ASSOCIATION, DESIGNATOR TYPE and DESIGNATOR LENGTH;
+                # the PROTOCOL IDENTIFIER / PIV positions of a VPD designation descriptor are reserved here)
+                raise RefParseError("xcopy.identification_reserved_bits", "reserved bits set in bytes 4..6 of the identification descriptor: %s" % b[off + 4 : off + 7].hex())
             c["ident"] = idn
         dt = c["peripheral_device_type"]
         if dt in BLOCK_TYPES[spc]:
